@@ -77,6 +77,8 @@ struct Ctx {
 
     bool begin(const char* fmt, ...) __attribute__((format(printf, 2, 3))) {
         uint64_t idx = counter++;
+        // any call of begin() means the previous case of this shard has run to its end (the per-case watchdog only looks at in_case)
+        if (sh->in_case) { sh->evaluated++; sh->in_case = 0; }
         if (stop) return false;
         if (has_only) { if (idx != only_index) return false; }
         else {
@@ -84,7 +86,6 @@ struct Ctx {
             if (idx < skip_upto) return false;
             if ((idx & 0x3ff) == (uint64_t)shard && deadline_abs > 0 && now_s() > deadline_abs) { sh->deadline_hit = 1; stop = true; return false; }
         }
-        if (sh->in_case) { sh->evaluated++; sh->in_case = 0; }
         va_list ap; va_start(ap, fmt); vsnprintf(sh->cur, DESC, fmt, ap); va_end(ap);
         sh->index = idx; sh->in_case = 1;
         if (verbose) fprintf(stderr, "[case %llu] %s\n", (unsigned long long)idx, sh->cur);
